@@ -209,6 +209,32 @@ func buildAttacks(r *spec.Rand, n int) []attack {
 			add("pre/field-corrupt", fmt.Sprintf("CONNECT byte %d = %#x", i, v), sendRawAndClose(m, 20*time.Millisecond))
 		}
 	}
+	// well-framed short CONNECTs: the fixed header announces exactly the k body bytes that follow
+	// (protocol 3.1.1 and 3.1), so the decoder sees a complete packet that ends inside a field
+	oldConnect := rc.Encode(&rc.Packet{Type: rc.CONNECT, ProtoName: "MQIsdp", Level: 3, CleanSession: true, KeepAlive: 60, ClientID: []byte("atk-pre3"), HasUser: true, User: []byte("u")})
+	for _, vc := range [][]byte{validConnect, oldConnect} {
+		body := vc[2:] // both are shorter than 128 bytes: one length byte
+		for k := 0; k < len(body); k++ {
+			m := append([]byte{0x10, byte(k)}, body[:k]...)
+			add("pre/framed-short", fmt.Sprintf("CONNECT (protocol name of %d bytes) framed to its first %d body bytes", vc[3], k), sendRawAndClose(m, 20*time.Millisecond))
+		}
+	}
+	// the mutation corpus of the codec check, applied to CONNECT packets, as the first packet
+	for i := 0; i < n/8; i++ {
+		p := genRecord(r, rc.CONNECT)
+		w := rc.Encode(canonical(p))
+		if len(w) > 6000 {
+			continue
+		}
+		var variants [][]byte
+		var kinds []string
+		mutations(r, w, func(kind string, b []byte) {
+			variants = append(variants, append([]byte{}, b...))
+			kinds = append(kinds, kind)
+		})
+		k := r.Intn(len(variants))
+		add("pre/mutated", "CONNECT "+kinds[k], sendRawAndClose(variants[k], 20*time.Millisecond))
+	}
 	for t := byte(2); t <= 14; t++ {
 		p := []byte{t<<4 | rc.FixedFlags(t), 0}
 		add("pre/wrong-first", "first packet type "+rc.TypeName(t), sendRawAndClose(p, 20*time.Millisecond))
